@@ -170,6 +170,8 @@ class FakeNet:
         self.counts = {}
         self.clock = None       # optional VClock for contact timestamps
         self.contacts = []      # (time, sockaddr, ok) for every connect() attempt
+        self.keep_sent = False
+        self.sentlog = []       # (callid, sockid, bytes) when keep_sent
         self.sendinfo = {}      # (callid, idx) -> (replying commands, reply bytes) of that sendall
         self._owner_refs = []   # strong refs so ids are never reused
 
@@ -219,6 +221,8 @@ class FakeNet:
             if self.trace_enabled:
                 self.events.append((typ, sock.sid if sock is not None else None, call, idx))
             kind = self.faults.pop((call, idx), None) if self.faults else None
+            if kind is None and self.faults:
+                kind = self.faults.pop((call, typ), None)     # "first <typ> of this call"
             if kind is not None:
                 # reply faults are only meaningful on sendall; ordinary kinds only on their type
                 k0 = kind[0] if isinstance(kind, tuple) else kind
@@ -386,6 +390,8 @@ class FakeSocket:
         if self.closed or not self.connected:
             raise OSError(errno.EBADF, "Bad file descriptor")
         self.last_call = net.ctx.call
+        if net.keep_sent:
+            net.sentlog.append((net.ctx.call, self.sid, bytes(data)))
         if self.rx and any(t != net.ctx.call for b, t in self.rx if b):
             net.alarm("SEND_ON_DIRTY_SOCKET",
                       "call %r sends on socket %d that still holds reply bytes of call(s) %r"
